@@ -3,16 +3,12 @@ from ._links import with_links
 
 PROP = dict(
     level='proof',
-    regen=['crctable', 'integconsts', 'readerconsts', 'go2lean:proto'],
-    go2lean_diff=['Proto'],
-    theorems=['Fit.C16.C16_concat', 'Fit.C16.C16_lengths', 'Fit.C16.C16_agree', 'Fit.C16.C16_reader_error',
-              # tie by translation (FitProps/C16Go2Lean.lean, notes/go2lean.md)
-              'Fit.C16.C16_go2lean_localMesgNum', 'Fit.C16.C16_go2lean_localMesgNum_lt', 'Fit.C16.C16_go2lean_masks_reader', 'Fit.C16.C16_go2lean_masks_format'],
+    regen=['crctable', 'integconsts', 'readerconsts'],
+    theorems=['Fit.C16.C16_concat', 'Fit.C16.C16_lengths', 'Fit.C16.C16_agree', 'Fit.C16.C16_reader_error'],
     families=[dict(name='raw', spec=True, prop=True)],
     # link theorem spec => raw decoder (additive: checklib/props/_links.py)
     extra=with_links(None, ['Fit.Links.Link_fitformat_raw'], crosscheck=[('raw', 'linkraw')]),
     trusted_base=STD_TRUST + [
-        "translators/go2lean (Go→Lean for a small subset of Go, notes/go2lean.md) re-translates proto.LocalMesgNum and the header masks of proto/proto.go from the current source on every run; the agreement theorems *_go2lean_* state that the translated functions equal the hand-written model functions for all arguments; trusted: the translator's rendering of the subset (go/types computes constants and types) and FitModel/GoPrelude.lean",
         "the model of (*RawDecoder).Decode (FitModel/Raw.lean: callback flags, per-sequence table lenMesgs, record lengths, BytesArray bound, callback failure, byte count n) is hand-written from decoder/raw.go and tied by family raw: real RawDecoder vs model on fixtures, encoder outputs under assorted options, hand-made record streams (0..255 fields, developer fields, size-0 fields, compressed-timestamp headers with bit 6 set, redefinitions), mutations and arbitrary bytes; contiguous and fragmenting / failing readers; failing callbacks",
         "FitFormat (lean/FitModel/FitFormat.lean) is the independent reading of the protocol's framing the lengths are stated against; on every stream it parses, the real RawDecoder's segmentation is compared with it (--spec)",
         "the full decoder model (FitModel/DecProg.lean) is tied by family dfrag (C08) and by the dec= part of the rawdec ops; agreement of the two real decoders is evaluated directly on the implementation (--prop of rawdec: acceptance of the full decoder is reconstructed from its own listener events)",
@@ -30,3 +26,15 @@ TEXT = dict(
     text='Theorems: C16_agree (whenever the full decoder model, checksum ignored, accepts a stream — all Decodes succeed and the loop ends at a clean end of stream — the raw decoder model accepts it, consumes all of it, reports the same number of sequences and the same ordered series of definitions (header byte, architecture, global number, field and developer field definitions) and data messages (header byte); by simulation: both consume the same bytes per record whatever the field sizes), C16_concat (for every stream and callback: concatenated segments = the first bytes of the stream, ≤ n ≤ length; = exactly the n consumed bytes on success), C16_lengths (every segment has the FitFormat-prescribed length given the preceding definitions; data records always have a live definition; definitions do not survive a sequence). Tie: family raw (ops raw: real RawDecoder vs model incl. fragmenting/failing readers and failing callbacks, --spec: FitFormat segmentation on every well-framed stream; ops rawdec: real RawDecoder vs real Decoder with mesg-def and mesg listeners, --prop: same number of sequences, same ordered series of definitions and data messages whenever the full decoder accepts).',
     note='Proved about the model; tied by differential testing.',
 )
+
+# --- tie by translation (translators/go2lean, notes/go2lean.md; agreement theorems in lean/FitProps/C16Go2Lean.lean).
+# Kept as a separate block so that it never collides with edits of the dictionary above.
+PROP['regen'] = PROP['regen'] + ['go2lean:proto']
+PROP['go2lean_diff'] = ['Proto']      # lean/Go2LeanDiff/<Topic>.lean: search for a differing argument when an agreement theorem breaks
+PROP['theorems'] = PROP['theorems'] + [
+    'Fit.C16.C16_go2lean_localMesgNum',
+    'Fit.C16.C16_go2lean_localMesgNum_lt',
+    'Fit.C16.C16_go2lean_masks_reader',
+    'Fit.C16.C16_go2lean_masks_format']
+PROP['trusted_base'] = PROP['trusted_base'] + [
+    "translators/go2lean (Go→Lean for a small subset of Go, notes/go2lean.md) re-translates proto.LocalMesgNum and the header masks of proto/proto.go from the current source on every run; the agreement theorems *_go2lean_* state that the translated functions equal the hand-written model functions for all arguments; trusted: the translator's rendering of the subset (go/types computes constants and types) and FitModel/GoPrelude.lean"]
